@@ -7,6 +7,7 @@ Oracle: exact multiset of (rule id, line) per configuration (allow_in_tests, all
 from __future__ import annotations
 
 import json
+import re
 from collections import Counter
 
 from .. import runner
@@ -222,6 +223,10 @@ OPTIONS = {
 
 def make_case(rng, idx):
     text, planted = gen_file(rng, idx)
+    style = rng.choice(["tight", "tight", "tight", "spaced"])
+    if style == "spaced":
+        # rustfmt-less spelling of every macro invocation in the file: blanks between the bang and the delimiter (same lines, same calls)
+        text = re.sub(r"(\b[A-Za-z_][A-Za-z0-9_]*)!([(\[{])", lambda m: m.group(1) + "! " + m.group(2), text)
     cfgs = [{c: {} for c in CMDS}]
     for _ in range(2):
         cfgs.append({c: {o: rng.random() < 0.5 for o in OPTIONS[c] if rng.random() < 0.8} for c in CMDS})
